@@ -190,7 +190,7 @@ def strategy(tier):
 
 
 def budget(tier):
-    return 150 if tier == "quick" else 3000
+    return 400 if tier == "quick" else 3000
 
 
 def enumerate_cases(tier):
